@@ -140,7 +140,7 @@ pub fn strategy() -> impl Strategy<Value = Case> {
     ]);
     let fixed = (
         fx_kind,
-        prop_oneof![3 => nice_q(), 2 => g::f32_bits()],
+prop_oneof![3 => nice_q(), 2 => g::f32_bits(), 1 => (1u32..200_000, any::<bool>()).prop_map(|(n, neg)| (if neg { -(n as f32) } else { n as f32 }).to_bits())],
         offsets(),
         any::<bool>(),
         any::<bool>(),
